@@ -227,10 +227,14 @@ def new_version(data, allow_custom=None, **kwargs):
 
             sco_locked_props = cls._id_contributing_properties
 
-    # Properties can also arrive by way of "custom_properties".
-    changed_properties = set(kwargs)
+    # Properties can also arrive by way of "custom_properties".  They are
+    # changes like the others: subject to the same checks, and they must
+    # replace what the object holds under those names.
     if isinstance(kwargs.get("custom_properties"), Mapping):
-        changed_properties.update(kwargs["custom_properties"])
+        kwargs.update(kwargs.pop("custom_properties"))
+        if allow_custom is None:
+            allow_custom = True
+    changed_properties = set(kwargs)
 
     unchangable_properties = set()
     for prop in itertools.chain(STIX_UNMOD_PROPERTIES, sco_locked_props):
@@ -276,14 +280,6 @@ def new_version(data, allow_custom=None, **kwargs):
     # Set allow_custom appropriately if versioning an object.  We will ignore
     # it for dicts.
     if isinstance(data, stix2.base._STIXBase):
-        # Changes given through "custom_properties" are changes like the
-        # others: they must replace what the object holds under those names
-        # (as keyword arguments, the old values would win over them).
-        if isinstance(new_obj_inner.get("custom_properties"), Mapping):
-            new_obj_inner.update(new_obj_inner.pop("custom_properties"))
-            if allow_custom is None:
-                allow_custom = True
-
         if allow_custom is None:
             new_obj_inner["allow_custom"] = data.has_custom
         else:
